@@ -838,7 +838,17 @@ def probe(harness):
         t = line.split()
         if t and t[0].startswith("cap") and t[0][3:].isdigit():
             tabs[int(t[0][3:])] = ",".join(t[1:])
-    return hooks, [tabs.get(i, "") for i in range(4)]
+    grow = {}
+    flags = {}
+    for line in out.splitlines():
+        t = line.split()
+        if t and t[0].startswith("grow") and t[0][4:].isdigit():
+            grow[int(t[0][4:])] = ",".join(t[1:])
+        elif t and "=" in t[0] and t[0].split("=")[0] in ("assignEmptyStatic", "assignSameSkip"):
+            flags[t[0].split("=")[0]] = t[0].split("=")[1]
+    # 5th argument: growth table rows (old capacity 0..64), 6th: the two operator= policies
+    return hooks, [tabs.get(i, "") for i in range(4)] + [";".join(grow.get(i, "") for i in range(65)),
+                                                          flags.get("assignEmptyStatic", "0") + flags.get("assignSameSkip", "0")]
 
 
 def probe_hooks(harness):
@@ -870,7 +880,9 @@ def check(ctx):
         quick = ctx.tier == "quick"
         hooks, dargs = probe(harness)
         ctx.cov["hooks_present"] = bool(hooks)
-        ctx.cov["capacity_policy_measured"] = [a.split(",")[:9] for a in dargs]
+        ctx.cov["capacity_policy_measured"] = [a.split(",")[:9] for a in dargs[:4]]
+        ctx.cov["growth_policy_measured"] = [r.split(",")[:12] for r in dargs[4].split(";")[:8]]
+        ctx.cov["assign_policy_measured"] = {"assignEmptyStatic": dargs[5][:1], "assignSameSkip": dargs[5][1:2]}
         corpus = C.load_corpus(ctx.prop)
         corpus = [[l if not l.startswith("hooks ") else f"hooks {hooks}" for l in h] for h in corpus]
         depth = 3 if quick else 4
